@@ -38,6 +38,7 @@ from . import common as C
 ID = "C14"
 DRIVER = "drv_c14"
 GEN = ["beacon"]
+EXTRA_PROP_FILES = ["Props/C14R.lean"]
 STREAMS = {
     "real": {"relevant": True, "desc": "histories on the sample beacons of tests/beacons"},
     "synth": {"relevant": True, "desc": "histories on synthetic TLV configurations with random transform programs"},
